@@ -26,24 +26,24 @@ const (
 	IntegMD5Plain  = 3
 	IntegSHA256128 = 4
 
-	ConfNone = 0
-	ConfAES  = 1
+	ConfNone    = 0
+	ConfAES     = 1
 	ConfXRC4128 = 2
 	ConfXRC440  = 3
 )
 
 // Payload types (table 13-16).
 const (
-	PTIPMI     = 0x00
-	PTSOL      = 0x01
-	PTOEM      = 0x02
-	PTOpenReq  = 0x10
-	PTOpenRsp  = 0x11
-	PTRAKP1    = 0x12
-	PTRAKP2    = 0x13
-	PTRAKP3    = 0x14
-	PTRAKP4    = 0x15
-	BMCAddr    = 0x20
+	PTIPMI      = 0x00
+	PTSOL       = 0x01
+	PTOEM       = 0x02
+	PTOpenReq   = 0x10
+	PTOpenRsp   = 0x11
+	PTRAKP1     = 0x12
+	PTRAKP2     = 0x13
+	PTRAKP3     = 0x14
+	PTRAKP4     = 0x15
+	BMCAddr     = 0x20
 	ConsoleSWID = 0x81
 )
 
